@@ -546,7 +546,16 @@ func main() {
 			}
 			single := mkL()
 			single.Simplify(sp.s)
-			many := mvt.Layers{mkL(), {Name: "empty"}, mkL()}
+			// the features of the plural run carry an id, properties and a bbox member: none of that has any say
+			deco := func(l *mvt.Layer) *mvt.Layer {
+				for i, f := range l.Features {
+					f.ID = i
+					f.Properties["k"] = i
+					f.BBox = geojson.BBox{0, 0, 0.5, 0.5}
+				}
+				return l
+			}
+			many := mvt.Layers{deco(mkL()), {Name: "empty"}, deco(mkL())}
 			many.Simplify(sp.s)
 			for li, l := range many {
 				wl := single.Features
